@@ -339,7 +339,7 @@ var errUnpack = dns.ErrBuf
 var qclass, qtype uint16
 var qbad bool
 
-//verif:replace (*github.com/miekg/dns.Msg).Unpack
+//verif:replace! (*github.com/miekg/dns.Msg).Unpack
 func Repl_dnsUnpack(m *dns.Msg, b []byte) error {
 	name := "good.example.com."
 	if qbad {
@@ -351,13 +351,13 @@ func Repl_dnsUnpack(m *dns.Msg, b []byte) error {
 
 var wireLen int
 
-//verif:replace (*github.com/miekg/dns.Msg).Len
+//verif:replace! (*github.com/miekg/dns.Msg).Len
 func Repl_dnsLen(m *dns.Msg) int { return wireLen }
 
 // Under the engine the wire form is opaque (the parser is replaced by the
 // scripted question above); the native twin packs and parses a real query.
 //
-//verif:replace (*github.com/miekg/dns.Msg).Pack
+//verif:replace! (*github.com/miekg/dns.Msg).Pack
 func Repl_dnsPack(m *dns.Msg) ([]byte, error) { return make([]byte, 29), nil }
 
 func VH_dns_rules() {
